@@ -195,3 +195,6 @@ pub assume_specification[ str::trim_start ](s: &str) -> (r: &str);
 pub assume_specification[ str::trim ](s: &str) -> (r: &str);
 pub assume_specification[ str::to_lowercase ](s: &str) -> (r: String);
 pub assume_specification<'a>[ <core::str::Chars<'a> as Iterator>::count ](c: core::str::Chars<'a>) -> (r: usize);
+pub assume_specification[ String::as_bytes ](s: &String) -> (r: &[u8]) ensures r@ == str_bytes(s@);
+pub assume_specification<T>[ Option::<T>::or ](a: Option<T>, b: Option<T>) -> (r: Option<T>) ensures r == (if a is Some { a } else { b });
+pub assume_specification<T: core::ops::Deref>[ Option::<T>::as_deref ](o: &Option<T>) -> (r: Option<&T::Target>) ensures (r is Some) == (o is Some);
